@@ -1,66 +1,10 @@
-(* C13_mm.v — dropout steps of Madgwick and Mahony (regenerated models). *)
+(* C13_mm.v — dropout steps of Madgwick (regenerated models). *)
 From Coq Require Import Reals List Lra Psatz.
 From AhrsLib Require Import Base.
 From AhrsGen Require Import C13gen_R.
 From AhrsProps Require Import C13_lib.
 Import ListNotations.
 Open Scope R_scope.
-
-(* ---- tactics shared by the per-filter files ------------------------------------------------------------- *)
-(* sqrt(e) -> 1 for every e that equals the squared norm of the unit input quaternion; x/1 -> x *)
-Ltac unit_sqrt H :=
-  rewrite ?div_one;
-  repeat (match goal with
-  | |- context [sqrt (?a * ?a + ?b * ?b + ?c * ?c + ?d * ?d)] =>
-      is_var a; is_var b; is_var c; is_var d;
-      let E := fresh in assert (E : a * a + b * b + c * c + d * d = 1) by (unfold sq4 in H; rewrite <- H; ring);
-      rewrite E; clear E; rewrite sqrt_1
-  end; rewrite ?div_one).
-Ltac gate1 := repeat match goal with
-  | |- context [Req_EM_T 0 1] => destruct (Req_EM_T 0 1); [exfalso; lra|]
-  end.
-(* re-normalisation of an already normalised 4-vector divides by 1 *)
-Ltac kill_renorm :=
-  repeat match goal with
-  | Hn : 0 <> ?n |- context [sqrt (?a / ?n * (?a / ?n) + ?b / ?n * (?b / ?n) + ?c / ?n * (?c / ?n) + ?d / ?n * (?d / ?n))] =>
-      rewrite (renorm a b c d n) by
-        first [ intros E0; apply Hn; symmetry; exact E0 | apply sqrt_sqrt; nra ];
-      rewrite ?div_one
-  end.
-Ltac drf := unfold dr0, dr1, dr2, dr3; field.
-
-(* the norm of a dead-reckoned quaternion is >= 1, so a zero test on it cannot fire *)
-Lemma sumsq_dr w x y z g0 g1 g2 h a b c d :
-  sq4 w x y z = 1 -> a = dr0 w x y z g0 g1 g2 h -> b = dr1 w x y z g0 g1 g2 h -> c = dr2 w x y z g0 g1 g2 h ->
-  d = dr3 w x y z g0 g1 g2 h -> 0 = sqrt (a*a + b*b + c*c + d*d) -> False.
-Proof.
-  intros Hq -> -> -> -> Hz. pose proof (drn_ge1 w x y z g0 g1 g2 h Hq) as G. unfold drn, sq4 in G. rewrite <- Hz in G. lra.
-Qed.
-(* a leaf [a/n;b/n;c/n;d/n], n the norm of (a,b,c,d), with (a,b,c,d) the dead-reckoned vector *)
-Lemma leaf_dr w x y z g0 g1 g2 h a b c d :
-  a = dr0 w x y z g0 g1 g2 h -> b = dr1 w x y z g0 g1 g2 h -> c = dr2 w x y z g0 g1 g2 h -> d = dr3 w x y z g0 g1 g2 h ->
-  [a / sqrt (a*a + b*b + c*c + d*d); b / sqrt (a*a + b*b + c*c + d*d); c / sqrt (a*a + b*b + c*c + d*d);
-   d / sqrt (a*a + b*b + c*c + d*d)] = dr w x y z g0 g1 g2 h.
-Proof. intros -> -> -> ->. reflexivity. Qed.
-Lemma leaf_dr_b w x y z g0 g1 g2 h a b c d (tl : list R) :
-  a = dr0 w x y z g0 g1 g2 h -> b = dr1 w x y z g0 g1 g2 h -> c = dr2 w x y z g0 g1 g2 h -> d = dr3 w x y z g0 g1 g2 h ->
-  [a / sqrt (a*a + b*b + c*c + d*d); b / sqrt (a*a + b*b + c*c + d*d); c / sqrt (a*a + b*b + c*c + d*d);
-   d / sqrt (a*a + b*b + c*c + d*d)] ++ tl = dr w x y z g0 g1 g2 h ++ tl.
-Proof. intros -> -> -> ->. reflexivity. Qed.
-
-(* the gyroscope zero test: in the zero branch the step returns q, which is dr q 0 h *)
-Ltac case_gyr Hq g0 g1 g2 :=
-  destruct (Req_EM_T 0 (sqrt (g0 * g0 + g1 * g1 + g2 * g2))) as [Hg|Hg];
-  [ apply sqrt3_0 in Hg; destruct Hg as (-> & -> & ->); rewrite (dr_g0 _ _ _ _ _ Hq); try reflexivity | ].
-(* the remaining zero test (on the norm of the propagated quaternion) and the leaf *)
-Ltac dr_leaf Hq w x y z g0 g1 g2 h :=
-  repeat match goal with
-  | |- context [Req_EM_T 0 (sqrt ?e)] =>
-      let Hz := fresh "Hz" in destruct (Req_EM_T 0 (sqrt e)) as [Hz|Hz];
-      [ exfalso; eapply (sumsq_dr w x y z g0 g1 g2 h); [exact Hq| | | | |exact Hz]; drf | ]
-  end;
-  kill_renorm; apply Val_inj;
-  first [ apply leaf_dr; drf | apply (leaf_dr_b w x y z g0 g1 g2 h); drf ].
 
 (* the configured gains of the Madgwick target (gain = 0.4, gain_imu, gain_marg): returned unchanged after the call *)
 Definition mad_cfg : list R := [2/5; 33/1000; 41/1000].
@@ -86,22 +30,3 @@ Proof.
   dr_leaf Hq w x y z g0 g1 g2 dt.
 Qed.
 
-(* ---- Mahony: the output is [q'; b'] — the carried gyro bias b is returned unchanged on a dropout ----------- *)
-Lemma mah_imu_a0 w x y z g0 g1 g2 b0 b1 b2 dt : sq4 w x y z = 1 ->
-  C13_mah_imu_a0_R w x y z g0 g1 g2 b0 b1 b2 dt = Val (dr w x y z g0 g1 g2 dt ++ [b0;b1;b2; 3; 1/20]).
-Proof.
-  intros Hq. unfold C13_mah_imu_a0_R. cbv zeta. unit_sqrt Hq. gate1. case_gyr Hq g0 g1 g2.
-  dr_leaf Hq w x y z g0 g1 g2 dt.
-Qed.
-Lemma mah_marg_a0 w x y z g0 g1 g2 m0 m1 m2 b0 b1 b2 dt : sq4 w x y z = 1 ->
-  C13_mah_marg_a0_R w x y z g0 g1 g2 m0 m1 m2 b0 b1 b2 dt = Val (dr w x y z g0 g1 g2 dt ++ [b0;b1;b2; 3; 1/20]).
-Proof.
-  intros Hq. unfold C13_mah_marg_a0_R. cbv zeta. unit_sqrt Hq. gate1. case_gyr Hq g0 g1 g2.
-  dr_leaf Hq w x y z g0 g1 g2 dt.
-Qed.
-Lemma mah_marg_am0 w x y z g0 g1 g2 b0 b1 b2 dt : sq4 w x y z = 1 ->
-  C13_mah_marg_am0_R w x y z g0 g1 g2 b0 b1 b2 dt = Val (dr w x y z g0 g1 g2 dt ++ [b0;b1;b2; 3; 1/20]).
-Proof.
-  intros Hq. unfold C13_mah_marg_am0_R. cbv zeta. unit_sqrt Hq. gate1. case_gyr Hq g0 g1 g2.
-  dr_leaf Hq w x y z g0 g1 g2 dt.
-Qed.
